@@ -83,6 +83,11 @@ def common(run, modules):
         if em not in EXPECT.get(run.pid, []):
             eok, elog = R.lake_build(run, [em])
             run.oblige("premise (atomic map of the cache-level model = xsync protocol skeleton): lake build %s" % em, eok, elog)
+    # one parallel build of all source-tie proof modules first (the twins' files are independent of each other); the
+    # per-module calls below then only report
+    tie = DEEP.get(run.pid, []) + [m for m in TRACE.get(run.pid, []) if m not in DEEP.get(run.pid, [])]
+    if tie:
+        R.lake_build(run, tie, timeout=900)
     for dm in DEEP.get(run.pid, []):
         dok_, dlog_ = R.lake_build(run, [dm], timeout=900)
         run.oblige("lake build %s (for every state and call, the interpreter of the Go subset run on the method bodies printed from the working tree computes exactly the hand-written model's step)" % dm, dok_, dlog_)
